@@ -20,6 +20,7 @@ var writeFinishers = map[string]bool{"Create": true, "CreateInBatches": true, "S
 
 func checkC16(c *Ctx) {
 	p := c.P
+	checkC16NameLookup(c)
 	dbT := p.Named(pkgGorm, "DB")
 
 	// ---- C16.carry ----
